@@ -110,6 +110,22 @@ def run(ctx: Ctx):
             body = ' "k";\n s0 = %s;\n s1 = %s;\n "z";\n' % (spell(rng, a, rng.choice(["mixed", "hex"])), spell(rng, a[:3] + b"a1F", "mixed"))
             progs_src.append((decl + "parser {\n" + body + "}\n", [rng.choice(["-O0", "-O2"])] + rng.choice([[], ["-fstrings-as-u8"], ["-fallocate-str-space-dynamic"]]),
                               [("start", "s0", d), ("after", "s0", a), ("after", "s1", a[:3] + b"a1F")]))
+    # neighbour pairs: bytes whose C spelling is an escape (or could be taken for one) directly followed by characters that would extend
+    # an escape sequence (octal / hex digits, x, quote, backslash, ?): every pair occurs in a stored string in every run
+    sensitive = [0, 1, 7, 8, 9, 10, 11, 12, 13, 27, 34, 39, 63, 92, 127, 128, 0xc3, 255]
+    followers = [ord(c) for c in "0178"] + [ord(c) for c in "9afAFxX\"\\?'n"] + [0, 0x80]
+    pairs = [(b, f) for b in sensitive for f in followers]
+    rng.shuffle(pairs)
+    for i in range(0, len(pairs), 10):
+        grp = pairs[i:i + 10]
+        a = bytes(x for pr in grp[:5] for x in pr)
+        d = bytes(x for pr in grp[5:] for x in pr) or b"0"
+        term = rng.random() < 0.5
+        decl = "out %s[%d] s0 = %s;\nout str[12] s1;\n" % ("str" if term else "unterminated str", len(d) + (1 if term else 0), spell(rng, d, rng.choice(["mixed", "hex", "mixed"])))
+        body = ' "k";\n s1 = %s;\n "z";\n' % spell(rng, a, rng.choice(["mixed", "hex", "mixed"]))
+        progs_src.append((decl + "parser {\n" + body + "}\n", [rng.choice(["-O0", "-O2"])] + rng.choice([[], ["-fstrings-as-u8"], ["-fallocate-str-space-dynamic"]]),
+                          [("start", "s0", d), ("after", "s1", a)]))
+    ctx.cov["neighbour_pairs_stored"] = len(pairs)
     # char constants
     chars = [(("'%s'" % chr(b)), b) for b in range(32, 127) if chr(b) not in "'\\"]
     chars += [("'\\n'", 10), ("'\\r'", 13), ("'\\t'", 9), ("'\\b'", 8), ("'\\0'", 0), ("'\\''", 39), ("'\\\\'", 92), ("'\\\"'", 34)]
